@@ -1,4 +1,4 @@
-------------------------------- MODULE Calc -------------------------------
+------------------------------- MODULE CalcN -------------------------------
 (***************************************************************************)
 (* The dual-number CALCULATOR over exact rationals: the meaning of one     *)
 (* public call of num-dual as a function of the operand values.            *)
@@ -33,22 +33,24 @@ I == INSTANCE DualB WITH
         SIsZero <- QIsZero, SIsOne <- LAMBDA t : t = Q1,
         SIsPositive <- LAMBDA t : QSign(t) > 0, SIsNegative <- LAMBDA t : QSign(t) < 0,
         FLt <- FLtQ, FEps <- FEpsTok, FAbs <- QAbs, FOfQ <- LAMBDA q : q
-\* @@SCALAR-LEVEL-BEGIN
-\* The scalar level of the calculator.  This module: plain floats (rationals).  tools/gen_nested.py derives
-\* CalcN.tla / MachineN.tla from this module and Machine.tla by replacing exactly this block: there the scalars are
-\* numbers of the inner level I (Dual<Dual64>, Dual2<Dual64>, HyperDual<Dual2_64>, ...: DualB instantiated over
-\* DualB), Inner is a CONSTANT (a scalar type descriptor) and IsF is FALSE.  (One module with a run-time switch
-\* inside every scalar operation was 25 times slower in TLC.)
-Inner == [k |-> "F"]
-IsF == TRUE
+\* @@SCALAR-LEVEL-BEGIN  (generated from Calc.tla by tools/gen_nested.py -- do not edit)
+\* The scalar level: numbers of the inner level I, a dual number type over the rationals.
+CONSTANT Inner       \* descriptor of a scalar dual number type: InnerDual, InnerDual2, InnerDual3, InnerHyperDual
+IsF == FALSE
 B == INSTANCE DualB WITH
-        SAdd <- QAdd, SSub <- QSub, SMul <- QMul, SDiv <- QDiv, SNeg <- QNeg, SRecip <- QInv,
-        SZero <- Q0, SOne <- Q1, SOfQ <- LAMBDA q : q,
-        SMulF <- QMul, SDivF <- QDiv, SAddF <- QAdd, SSubF <- QSub,
-        SFun <- QFun, SPowi <- QPow, SPowf <- QPowf, SLog <- QLog, SAtan2 <- QAtan2,
-        SRe <- LAMBDA t : t,
-        SIsZero <- QIsZero, SIsOne <- LAMBDA t : t = Q1,
-        SIsPositive <- LAMBDA t : QSign(t) > 0, SIsNegative <- LAMBDA t : QSign(t) < 0,
+        SAdd <- LAMBDA a, b : I!AddB(Inner, a, b), SSub <- LAMBDA a, b : I!SubB(Inner, a, b),
+        SMul <- LAMBDA a, b : I!MulB(Inner, a, b), SDiv <- LAMBDA a, b : I!DivB(Inner, a, b),
+        SNeg <- LAMBDA a : I!NegB(Inner, a), SRecip <- LAMBDA a : I!RecipB(Inner, a),
+        SZero <- I!ZeroB(Inner), SOne <- I!OneB(Inner), SOfQ <- LAMBDA q : I!FromFB(Inner, q),
+        SMulF <- LAMBDA t, q : I!MulFB(Inner, t, q), SDivF <- LAMBDA t, q : I!DivFB(Inner, t, q),
+        SAddF <- LAMBDA t, q : I!AddFB(Inner, t, q), SSubF <- LAMBDA t, q : I!SubFB(Inner, t, q),
+        SFun <- LAMBDA fn, t : I!ElemB(Inner, fn, t),
+        SPowi <- LAMBDA t, n : I!PowiB(Inner, t, n),
+        SPowf <- LAMBDA t, q : I!PowfB(Inner, t, q, q = QInt(2)),
+        SLog <- LAMBDA t, b : I!LogB(Inner, t, b), SAtan2 <- LAMBDA t, u : I!Atan2B(Inner, t, u),
+        SRe <- LAMBDA t : I!ReB(t),
+        SIsZero <- LAMBDA t : I!IsZeroB(t), SIsOne <- LAMBDA t : I!IsOneB(t),
+        SIsPositive <- LAMBDA t : I!IsPositiveB(t), SIsNegative <- LAMBDA t : I!IsNegativeB(t),
         FLt <- FLtQ, FEps <- FEpsTok, FAbs <- QAbs, FOfQ <- LAMBDA q : q
 \* @@SCALAR-LEVEL-END
 
